@@ -221,10 +221,6 @@ class IndicatorInterp(Interp):
                 return ("isinstance", a[1], a[2], ast.unparse(typ))
         return ("opaque", ast.unparse(node))
 
-    def loop(self, node, st):
-        st.site("loop-stmt", node, iter=ast.unparse(node.iter) if isinstance(node, ast.For) else "while")
-        return super().loop(node, st)
-
     def reduction_other(self, name, comp, it, st, node):
         st.site("iter-other", node, iter=it)
         return Opaque(f"{name} over {it!r}")
